@@ -16,6 +16,7 @@ RULE = ("Hypothesis draws (shape 1..9 per side with parity classes, cutoff class
         "H=1/(1+(|f|/cutoff)^(2*order)) on fftfreq grids; plus an enumerated part: every axis length 1..16 on "
         "each of the three axes x 3 cutoffs x 3 orders. Non-trivial = at least one odd side and an active "
         "cutoff (0 < cutoff < 0.5*sqrt(3)). Distinct = distinct descriptor hash.")
+RULE += (" " + 'Also: int16 / uint8 input images.')
 TOLERANCES = {"value": "1e-4 * max|input| (float32 FFT vs float64 reference)",
               "linearity": "2e-4 * scale", "mean": "1e-4 * max|input|"}
 ASSUMPTIONS = ["numpy backend only (cupy is not installed)",
